@@ -2236,6 +2236,86 @@ def k43_part(ctx: vlib.Ctx, mod):
          imports="UnionModel UnionDispatch K43Cases", gen_imports="From VerifGen Require Import K43.", needs=("theories/K43Cases.vo",))
 
 
+# ---------------------------------------------------------------------------
+# K43a: the translated creators of the basic scalar types vs the expression the real registries return
+# ---------------------------------------------------------------------------
+class GetRecorder:
+    """records the outermost Registry.get call (type, returned expression) made while something is built"""
+
+    def __init__(self):
+        import mashumaro.core.meta.types.common as _common
+        self.common, self.calls, self.depth = _common, [], 0
+
+    def __enter__(self):
+        cls = self.common.Registry
+        self.orig = orig = cls.get
+        me = self
+
+        def get(reg, spec):
+            tp = spec.type
+            me.depth += 1
+            try:
+                r = orig(reg, spec)
+            finally:
+                me.depth -= 1
+            if me.depth == 0:
+                me.calls.append((tp, r))
+            return r
+        cls.get = get
+        return self
+
+    def __exit__(self, *a):
+        self.common.Registry.get = self.orig
+        return False
+
+
+K43A_TYPES = [("int", "OInt"), ("float", "OFloat"), ("bool", "OBool"), ("str", "(OStr false)"), ("NoneType", "ONoneType"), ("None", "ONonePy"),
+              ("Any", "OAny"), ("SStr", "(OStr true)"), ("date", "OOther"), ("Decimal", "OOther"), ("List[int]", "OOther"), ("DC1", "OOther"),
+              ("UUID", "OOther"), ("Dict[str, int]", "OOther"), ("Color", "OOther")]
+
+
+def k43a_part(ctx: vlib.Ctx, mod):
+    """(T) validation of kernel K43a: the expression the real registries return for a type at the top of a codec
+    (TypeMatchEligibleExpression with which coercion / "value" / something else) against the translated creators."""
+    if not ctx.kernel_report.get("K43a", {}).get("ok", False):
+        ctx.not_shown("kernel K43a", str(ctx.kernel_report.get("K43a", {}).get("error")))
+        return
+    from mashumaro.core.meta.types.common import TypeMatchEligibleExpression as TME
+    ns = mod.__dict__
+    cases, info = [], []
+    for expr, oty in K43A_TYPES:
+        tp = eval(expr, ns)
+        obs = []
+        for side, codec in (("unpack", "BasicDecoder"), ("pack", "BasicEncoder")):
+            with GetRecorder() as gr:
+                try:
+                    ns[codec](tp)
+                except Exception as e:  # noqa: BLE001
+                    ctx.notes.append(f"K43a: {codec}({expr}) not built: {type(e).__name__}"[:160])
+            if not gr.calls:
+                obs = None
+                break
+            r = gr.calls[-1][1]
+            if isinstance(r, TME):
+                k = FB_TEXT.get(str(r))
+                obs.append(f"(Some (STme {k}))" if k else "(Some (STme KNone))" if str(r) == "None" else "None")
+                if not k:
+                    ctx.not_shown("kernel K43a validation", f"TypeMatchEligibleExpression with unknown text {r!r} for {expr}")
+            elif r == "value":
+                obs.append("(Some SValue)")
+            else:
+                obs.append("None")
+        if obs is None:
+            continue
+        cases.append(f"({oty}, ({obs[0]}, {obs[1]}))")
+        info.append((expr, oty, obs[0], obs[1]))
+        ctx.count(("k43a", expr, obs[0], obs[1]))
+    if len(cases) < 10:
+        ctx.not_shown("kernel K43a validation", f"only {len(cases)} types observed")
+    corr(ctx, "K43a-translation-vs-real-registry", cases, info, "oty * (option sexpr * option sexpr)", ["k43acase_ok"],
+         imports="UnionModel ScalarCreators K43aCases", gen_imports="From VerifGen Require Import K43a.", needs=("theories/K43aCases.vo",))
+
+
 THEOREMS = [
     "C11_union_decode_partial", "C11_union_deviation_char", "C11_union_shadow_result", "C11_union_none_refuted",
     "C11_union_shadow_refuted", "C11_no_cross_coercion", "C11_scalars_first_no_shadow", "C11_union_result_from_member",
@@ -2247,6 +2327,8 @@ THEOREMS = [
     "C11_typevar_dispatch_model", "C11_optional_position_full", "C11_union_position_partial", "C11_union_position_refuted",
     "C11_dispatch_symmetric", "C11_optional_encode", "C11_field_none_test_once",
     "C11_member_value_partial", "C11_member_value_refuted",
+    "C11_scalar_members_tme", "C11_scalar_members_identity_packer", "C11_tme_only_scalars", "C11_scalar_creators_exclusive",
+    "C11_scalar_type_is_scalar_member",
 ]
 
 
@@ -2258,7 +2340,7 @@ def run(ctx: vlib.Ctx):
         "dataclass field, List element; inputs: 62 basic-form values of every scalar class, lists, dicts and garbage. "
         "distinct = (member mix in order, path, input class, verdict class, outcome). Literal: 1-4 listed values of "
         "int/bool/str/None/enum/bytes x 27 inputs.")
-    ctx.theorems("props/C11_union.vo", THEOREMS, kernels=["K19", "K21", "K22", "K43"])
+    ctx.theorems("props/C11_union.vo", THEOREMS, kernels=["K19", "K21", "K22", "K43", "K43a"])
     ctx.trusted += [
         "UnionModel.v is hand-written from UnionUnpackerBuilder._add_body / pack_union / LiteralUnpackerBuilder / expr_or_maybe_none; "
         "tied to /repo only behaviourally (correspondence on every run), parametric in the member (un)packers whose behaviour is "
@@ -2297,6 +2379,7 @@ def run(ctx: vlib.Ctx):
     k21_part(ctx, mod)
     k22_part(ctx, mod)
     k43_part(ctx, mod)
+    k43a_part(ctx, mod)
 
 
 # ---------------------------------------------------------------------------
